@@ -182,6 +182,7 @@ def roles_idx(H, l, s_):
 class Subscribe(FnSpec):
     """C10: Signal._subscribe(send) - a bracket: subscribed on entry, that same stream unsubscribed on every way of leaving."""
     qual = "_event.Signal._subscribe"
+    generator_cm = True      # a call only creates the context manager; enter/exit effects at `with` / enter_context come from the bracket clauses
     properties = ("C10", "C06")
     param_types = {"self": INST("Signal"), "send": LIB(SS)}
     modifies = "rely"
